@@ -1,6 +1,6 @@
 #!/bin/bash
-# usage: seed_pipeline.sh <cxx lower-case>   — confirm and test the three seeded changes in /tmp/mut-<cxx>/out/{1,2,3}
-p=$1; P=$(echo $p | tr a-z A-Z); W=/tmp/mut-$p; V=/tmp/vt-$p; OUT=/tmp/seedpipe_$p.txt
+# usage: [MUTDIR=/tmp/m2-cxx SEEDLOG=/tmp/seedpipe2_cxx.txt] seed_pipeline.sh <cxx lower-case>   — confirm and test the three seeded changes in /tmp/mut-<cxx>/out/{1,2,3}
+p=$1; P=$(echo $p | tr a-z A-Z); W=${MUTDIR:-/tmp/mut-$p}; V=/tmp/vt-$p; OUT=${SEEDLOG:-/tmp/seedpipe_$p.txt}
 : > $OUT
 export CARGO_TARGET_DIR=$W/target
 if [ ! -d $V ]; then
